@@ -589,3 +589,56 @@ def root_cascade_hook(draw, cx, root, allow_opacity=False):
             _put(draw, root, "opacity", ["0.5", "0.3"])
             cx.feat.add("root-opacity")
         cx.feat.add("root-" + p)
+
+
+# ------------------------------------------------------------------ stroke hook (C04)
+
+
+def _stroke_props(draw, cx, allow_dash=True):
+    ext = cx.box.ext
+    w = draw(st.sampled_from([0.03, 0.05, 0.08, 0.12, 0.2])) * ext
+    w = max(round(w, 2), 2.0)
+    props = {"stroke": draw(st.sampled_from(PALETTE[8:])), "stroke-width": fmt(w)}
+    if draw(st.booleans()):
+        props["stroke-linecap"] = draw(st.sampled_from(["butt", "round", "square"]))
+    if draw(st.booleans()):
+        props["stroke-linejoin"] = draw(st.sampled_from(["miter", "round", "bevel"]))
+    if draw(st.integers(0, 2)) == 0:
+        props["stroke-miterlimit"] = draw(st.sampled_from(["1", "2", "4", "10", "1.5"]))
+    if allow_dash and draw(st.integers(0, 2)) == 0:
+        n = draw(st.sampled_from([1, 2, 2, 3, 4]))
+        vals = [fmt(round(draw(st.sampled_from([0.04, 0.08, 0.15, 0.3])) * ext, 1)) for _ in range(n)]
+        props["stroke-dasharray"] = draw(st.sampled_from([" ", ",", ", "])).join(vals)
+        if draw(st.booleans()):
+            props["stroke-dashoffset"] = fmt(round(draw(st.sampled_from([-0.3, -0.05, 0.07, 0.2, 0.9, 2.5])) * ext, 1))
+    if draw(st.integers(0, 3)) == 0:
+        props["stroke-opacity"] = draw(st.sampled_from(["0.5", "0.25", "0.8"]))
+    return props
+
+
+def stroke_hook(draw, cx, n):
+    """Stroke properties on shapes (own) or on groups/use (inherited by their content)."""
+    tag = n["tag"]
+    if tag == "g" or tag == "use":
+        if draw(st.integers(0, 2)) == 0:
+            for k, v in _stroke_props(draw, cx).items():
+                (n["a"] if draw(st.integers(0, 2)) else n["s"])[k] = v
+            cx.feat.add("stroke-inherited")
+        return
+    if draw(st.integers(0, 3)) == 0:
+        return  # unstroked (or inherits)
+    props = _stroke_props(draw, cx)
+    for k, v in props.items():
+        (n["a"] if draw(st.integers(0, 2)) else n["s"])[k] = v
+    cx.feat.add("stroke-own")
+    for k in ("stroke-dasharray", "stroke-linecap", "stroke-linejoin", "stroke-opacity", "stroke-dashoffset"):
+        if k in props:
+            cx.feat.add(k + ("=" + props[k] if k in ("stroke-linecap", "stroke-linejoin") else ""))
+    fillmode = draw(st.sampled_from(["keep", "none", "opacity"]))
+    if fillmode == "none":
+        n["a"].pop("fill", None)
+        n["s"].pop("fill", None)
+        n["a"]["fill"] = "none"
+        cx.feat.add("fill-none")
+    elif fillmode == "opacity":
+        n["a"]["fill-opacity"] = draw(st.sampled_from(["0.5", "0.3"]))
